@@ -24,7 +24,11 @@ META["text"] = (
     "arms of frame2quat); zaxis resolves to a unit quaternion with zero z component that maps the z axis onto z/|z| (C36_orient_zaxis, including the exact +-z cases; atan2/half-angle identities "
     "proved); an element wrapped in ANY number of nested frames compiles to the pose written out directly (C36_frames, induction over the nesting; C36_frameaccum_assoc) for unit quaternions; "
     "an attribute resolved through ANY chain of nested default classes is the element's own setting, else that of the innermost class that sets it, else the built-in value (C36_defaults, discrete model "
-    "of the copy-then-overwrite construction of classes and elements). PARTIAL: C36_fuse_partial proves only the mass-property algebra of fusing (a set of geoms can be replaced by a lumped body at its "
+    "of the copy-then-overwrite construction of classes and elements). C36_joint_degree (round 3): in the model of mjCJoint::Compile's unit conversion the limit range of a limited HINGE or BALL joint and the ref/springref of a hinge joint written in degrees "
+    "compile to the radian values, and slide / free / unlimited joints are copied unchanged in both units; every joint of every generated model now carries a limit range (tight ranges are reached within the "
+    "simulated steps; one-sided and auto-limited ranges included), ref and springref; they are written in the spec's angle unit, explicitly or through a default class, the attached child spec has its OWN angle unit "
+    "(attached elements keep their origin's compiler options), and on EVERY compiled spelling jnt_limited, jnt_range, qpos0 and qpos_spring must equal the abstract radian/metre values (1e-12) and are compared with the Coq model. "
+    "PARTIAL: C36_fuse_partial proves only the mass-property algebra of fusing (a set of geoms can be replaced by a lumped body at its "
     "centre of mass without changing mass, first moment or the tensor about any point); mjCBody::AccumulateInertia and the re-parenting done by fusestatic are not modelled. Excluded by explicit premises: "
     "the window 0 < | |v| - 1 | <= 1e-14 in which mjuu_normvec leaves a non-unit vector untouched, and z axes within 1e-7 of +-z but not equal to them (treated as +-z by the code: a 1e-7 rad approximation). "
     "TIE on every run: mjs_resolveOrientation is compared with the model evaluated at binary64 on random and boundary inputs of every spelling (all 216 Euler sequences, degrees and radians, invalid "
@@ -223,10 +227,18 @@ Definition chkD (c : list (Z * float) * list (list (Z * float)) * list (Z * floa
   let '(builtin, chain, own, obs) := c in
   let b := fun a => match tab builtin a with Some v => v | None => 0%float end in
   forallb (fun p => fclose 0x1p-40 (resolveElement b (map tab chain) (tab own) (fst p)) (snd p)) obs.
+(* joint angle attributes: (degree, type, limited, written [lo; hi; ref; sref], compiled [range0; range1; qpos0; qpos_spring]) *)
+Definition chkJ (c : bool * Z * bool * list float * list float) : bool :=
+  let '(degree, ty, limited, w, obs) := c in
+  let '(r0, r1) := jointRange degree ty limited (g w 0, g w 1) in
+  fclose_list 0x1p-40 ([r0; r1] ++ (if ((ty =? 2) || (ty =? 3))%Z then [jointRef degree ty (g w 2); jointRef degree ty (g w 3)] else []))
+              ([g obs 0; g obs 1] ++ (if ((ty =? 2) || (ty =? 3))%Z then [g obs 2; g obs 3] else [])).
 Definition bcase : Type := (Z * bool * string * list float * list float)%type.
 Definition dcase : Type := (list (Z * float) * list (list (Z * float)) * list (Z * float) * list (Z * float))%type.
-Definition IR (x : bcase) : bcase + dcase := inl x.
-Definition ID (x : dcase) : bcase + dcase := inr x.
+Definition jcase : Type := (bool * Z * bool * list float * list float)%type.
+Definition IR (x : bcase) : bcase + (dcase + jcase) := inl x.
+Definition ID (x : dcase) : bcase + (dcase + jcase) := inr (inl x).
+Definition IJ (x : jcase) : bcase + (dcase + jcase) := inr (inr x).
 """
 
 
@@ -310,6 +322,43 @@ def rand_orient(rng, degree, seq, allow_z=True):
     return {"kind": "z", "args": v, "quat": m2q(rodrigues(axis, ang))}
 
 
+def rand_joint_angles(rng, jt):
+    """limit range, reference and spring reference of a joint, in radians (hinge, ball) or metres (slide); lim: 0 false, 1 true, 2 auto"""
+    a = {"lim": 0, "lo": 0.0, "hi": 0.0, "ref": 0.0, "sref": 0.0}
+    if jt == 0:
+        return a
+    if rng.random() < 0.7:
+        a["lim"] = rng.choice([1, 1, 2])
+        tight = rng.random() < 0.6               # tight ranges are reached within the simulated 0.2 s
+        if jt == 1:
+            a["hi"] = rng.uniform(0.02, 0.06) if tight else rng.uniform(0.3, 2.5)
+        else:
+            a["lo"] = -rng.uniform(0.01, 0.04) if tight else -rng.uniform(0.2, 2.0)
+            a["hi"] = rng.uniform(0.01, 0.04) if tight else rng.uniform(0.2, 2.0)
+            if rng.random() < 0.2:
+                a["lo"] = 0.0                    # one-sided: the zero end is not converted by the code
+    if jt in (2, 3) and rng.random() < 0.4:
+        a["ref"] = rng.uniform(a["lo"], a["hi"]) if a["lim"] else rng.uniform(-0.5, 0.5)
+    if jt in (2, 3) and rng.random() < 0.4:
+        a["sref"] = rng.uniform(-0.3, 0.3)
+    return a
+
+
+ANG_ORDER = ["lim", "lo", "hi", "ref", "sref"]
+
+
+def angles_written(a, jt, degree):
+    """the numbers to write for this joint in a spec with the given angle unit"""
+    k = 180 / math.pi
+    w = dict(a)
+    if degree and jt == 3:
+        for f in ("lo", "hi", "ref", "sref"):
+            w[f] = a[f] * k
+    if degree and jt == 1:
+        w["hi"] = a["hi"] * k
+    return w
+
+
 def gen_model(rng):
     degree = rng.random() < 0.5
     seq = "".join(rng.choice("xyzXYZ") for _ in range(3))
@@ -351,7 +400,8 @@ def gen_model(rng):
              "joint": None, "cls": cls,
              "geom": {"name": "g%d" % i, "pos": [rng.uniform(-0.2, 0.2) for _ in range(3)], "ori": rand_orient(rng, degree, seq), "attr": g}}
         if jt is not None:
-            b["joint"] = {"name": "j%d" % i, "type": jt, "axis": unit([rng.gauss(0, 1) for _ in range(3)]), "attr": target(ATTR_J, cls)}
+            b["joint"] = {"name": "j%d" % i, "type": jt, "axis": unit([rng.gauss(0, 1) for _ in range(3)]), "attr": target(ATTR_J, cls),
+                          "ang": rand_joint_angles(rng, jt)}
         bodies.append(b)
     return {"degree": degree, "seq": seq, "classes": classes, "bodies": bodies}
 
@@ -378,10 +428,12 @@ def render(model, variant, rng, nsteps=100):
     cmds.append("opt %d %s %d" % ((1 if M["degree"] else 0) if native else 0, M["seq"] if native else "xyz", fuse))
     O = ori_native if native else ori_q
     names = {}
+    jwritten = {}
     if variant == "defaults":
         for k, own in enumerate(M["classes"]):
             cmds.append("def c%d %s %s" % (k, "-" if k == 0 else "c%d" % (k - 1), attrs_txt(own, ["gtype", "gs0", "gs1", "gs2", "gdens", "jdamp", "jarm", "jstiff"])))
     sub_root = None
+    sub_degree = rng.random() < 0.5
     if variant == "attach":
         cands = [i for i, b in enumerate(M["bodies"]) if b["joint"] is not None]
         sub_root = rng.choice(cands)
@@ -440,7 +492,21 @@ def render(model, variant, rng, nsteps=100):
         ecls = "-" if (variant != "defaults" or b["cls"] is None or use_child) else "c%d" % b["cls"]
         if b["joint"]:
             j = b["joint"]
-            C.append("joint %s %s %s %d %s %s" % (j["name"], bname, ecls, j["type"], " ".join(hx(x) for x in j["axis"]), attrs_txt(explicit(j["attr"], ATTR_J), ATTR_J)))
+            # attached elements keep the compiler options of the spec they were written in: the child spec has its own angle unit
+            deg_here = sub_degree if sub else bool(native and M["degree"])
+            w = angles_written(j["ang"], j["type"], deg_here)
+            ja = explicit(j["attr"], ATTR_J)
+            jcls = ecls
+            via_class = native and ecls == "-" and not sub and rng.random() < 0.5
+            if via_class:
+                # the angle attributes come from a default class (they are converted when the joint is compiled)
+                jcls = "dj%d" % i
+                cmds.append("def %s - %s" % (jcls, attrs_txt({"j" + k: float(w[k]) for k in ANG_ORDER}, ["j" + k for k in ANG_ORDER])))
+                # the class is a copy of the built-in joint defaults: damping, armature, stiffness stay explicit
+            else:
+                ja.update({k: float(w[k]) for k in ANG_ORDER})
+            jwritten[j["name"]] = (deg_here, w)
+            C.append("joint %s %s %s %d %s %s" % (j["name"], bname, jcls, j["type"], " ".join(hx(x) for x in j["axis"]), attrs_txt(ja, ATTR_J + ANG_ORDER)))
         ge = b["geom"]
         gframe, gpos, gori = "-", ge["pos"], O(ge["ori"])
         if variant == "frames" and rng.random() < 0.7:
@@ -448,10 +514,11 @@ def render(model, variant, rng, nsteps=100):
             gpos, gori = inner[0], "q " + " ".join(hx(x) for x in inner[1])
         C.append("geom %s %s %s %s %s %s %s" % (ge["name"], bname, gframe, ecls, " ".join(hx(x) for x in gpos), gori, attrs_txt(explicit(ge["attr"], ATTR_G), ATTR_G)))
     if variant == "attach":
-        text = "spec 0 " + " ".join(main_cmds) + " spec 1 " + " ".join(sub_cmds) + " spec 0 attach fa %s p_" % M["bodies"][sub_root]["name"]
+        text = ("spec 0 " + " ".join(main_cmds) + " spec 1 opt %d xyz 0 " % (1 if sub_degree else 0) + " ".join(sub_cmds)
+                + " spec 0 attach fa %s p_" % M["bodies"][sub_root]["name"])
     else:
         text = " ".join(main_cmds)
-    return "M " + text + " qvel 0.4 sim %d" % nsteps, names
+    return "M " + text + " qvel 0.4 sim %d" % nsteps, names, jwritten
 
 
 def parse_model_out(line):
@@ -474,8 +541,8 @@ def parse_model_out(line):
     nj = int(t[k + 1]); k += 2
     joints = {}
     for _ in range(nj):
-        joints[t[k]] = [unhx(x) for x in t[k + 1:k + 4]]
-        k += 4
+        joints[t[k]] = [unhx(x) for x in t[k + 1:k + 4]] + [float(t[k + 4])] + [unhx(x) for x in t[k + 5:k + 9]]
+        k += 9
     assert t[k] == "B"
     nbm = int(t[k + 1]); k += 2
     masses = {}
@@ -490,6 +557,36 @@ def pose_err(a, b):
     ep = max(abs(x - y) for x, y in zip(a[:3], b[:3]))
     eq = min(max(abs(x - y) for x, y in zip(a[3:], b[3:])), max(abs(x + y) for x, y in zip(a[3:], b[3:])))
     return max(ep, eq)
+
+
+def check_joint_angles(ctx, M, v, o, jw, case, jlits):
+    """degrees versus radians, stated on the compiled model: whatever the angle unit of the spec, jnt_limited / jnt_range / qpos0 /
+    qpos_spring of every joint are the radian (metre) values of the abstract model; also records the Coq case (written numbers,
+    unit, type -> Model/Orient.v jointRange / jointRef)"""
+    n = 0
+    for b in M["bodies"]:
+        j = b["joint"]
+        if not j or j["type"] == 0:
+            continue
+        nm = j["name"] if j["name"] in o["joints"] else "p_" + j["name"]
+        obs = o["joints"].get(nm)
+        a = j["ang"]
+        if obs is None:
+            continue
+        limited = 1 if (a["lim"] == 1 or (a["lim"] == 2 and (a["lo"] != 0 or a["hi"] != 0))) else 0
+        want = [float(limited), a["lo"], a["hi"]] + ([a["ref"], a["sref"]] if j["type"] in (2, 3) else [])
+        got = obs[3:6] + (obs[6:8] if j["type"] in (2, 3) else [])
+        n += 1
+        if any(abs(x - y) > 1e-12 * (1 + abs(x)) for x, y in zip(want, got)):
+            ctx.violation("impl_violation", case, expected={"joint": nm, "type": j["type"], "limited, range (rad/m), qpos0, qpos_spring": want},
+                          observed={"limited, jnt_range, qpos0, qpos_spring": got, "written": jw.get(j["name"])},
+                          theorem="C36_joint_degree (angle-valued joint attributes compile to the same radians in both units)",
+                          signature={"site": "mjCJoint::Compile", "rewriting": v})
+        if j["name"] in jw:
+            deg, w = jw[j["name"]]
+            jlits.append("(IJ (%s, %d%%Z, %s, %s, %s))" % ("true" if deg else "false", j["type"], "true" if limited else "false",
+                                                         F.flist([w["lo"], w["hi"], w["ref"], w["sref"]]), F.flist(obs[4:8])))
+    return n
 
 
 VARIANTS = ["orient", "frames", "defaults", "attach", "fuse"]
@@ -509,28 +606,33 @@ def run_models(ctx, exe):
     while len(models) < nm:
         models.append(gen_model(rng))
     for mi, M in enumerate(models):
-        base, bnames = render(M, "base", rng)
+        base, bnames, jw = render(M, "base", rng)
         reqs.append(base)
-        meta.append((mi, "base", bnames))
+        meta.append((mi, "base", bnames, jw))
         for v in VARIANTS:
-            txt, names = render(M, v, rng)
+            txt, names, jw = render(M, v, rng)
             reqs.append(txt)
-            meta.append((mi, v, names))
+            meta.append((mi, v, names, jw))
     rc, out, err = ctx.run(exe, "".join(r + "\n" for r in reqs))
     lines = out.strip("\n").split("\n")
     if rc != 0 or len(lines) != len(reqs):
         ctx.broken.append(("correspondence", "driver c36_equiv failed (M)", "rc=%s lines=%d/%d %s" % (rc, len(lines), len(reqs), err[-500:])))
-        return [], {}
+        return [], [], {}
     worst = {v: 0.0 for v in VARIANTS}
     ncmp = {v: 0 for v in VARIANTS}
     moved = 0
     dlits = []
+    jlits = []
+    nj_checked = 0
     base_out = None
-    for (mi, v, names), req, l in zip(meta, reqs, lines):
+    for (mi, v, names, jw), req, l in zip(meta, reqs, lines):
         M = models[mi]
         o = parse_model_out(l)
         case = {"rewriting": v, "model": M, "request": req[:4000]}
         sig = {"site": "mj_compile", "rewriting": v}
+        if o is not None:
+            jerr = check_joint_angles(ctx, M, v, o, jw, case, jlits)
+            nj_checked += jerr
         if v == "base":
             base_out = o
             if o is None:
@@ -576,7 +678,7 @@ def run_models(ctx, exe):
                 if b["joint"]:
                     jobs = o["joints"].get(b["joint"]["name"])
                     tj = b["joint"]["attr"]
-                    if jobs is None or jobs != [tj["stiff"], tj["damp"], tj["arm"]]:
+                    if jobs is None or jobs[:3] != [tj["stiff"], tj["damp"], tj["arm"]]:
                         ctx.violation("impl_violation", case, expected={"joint": b["joint"]["name"], "stiffness,damping,armature": [tj["stiff"], tj["damp"], tj["arm"]]}, observed=jobs,
                                       theorem="C36_defaults (the innermost class that sets the attribute wins)", signature=sig)
                     # Coq case: what the element wrote explicitly is not recorded here; the model is run on the class chain with the
@@ -592,7 +694,8 @@ def run_models(ctx, exe):
     ctx.cov["support"]["trajectory_worst_error"] = worst
     ctx.cov["support"]["trajectory_body_comparisons"] = ncmp
     ctx.cov["support"]["bodies_that_moved_more_than_1e-4"] = moved
-    return dlits, {"models": len(models), "compiles": len(reqs)}
+    ctx.cov["support"]["joint_angle_attributes_checked"] = nj_checked
+    return dlits, jlits, {"models": len(models), "compiles": len(reqs)}
 
 
 def run(ctx):
@@ -602,17 +705,20 @@ def run(ctx):
     if exe is None:
         return
     rlits, nres = run_resolve(ctx, exe)
-    dlits, mstat = run_models(ctx, exe)
+    dlits, jlits, mstat = run_models(ctx, exe)
     imports = ("From Coq Require Import ZArith PrimFloat Bool String Ascii.\n"
                "From MJV Require Import Lib.Num Lib.NumF Lib.FloatFn Model.Spatial Model.Inertia Model.Orient.\nOpen Scope nat_scope.\n")
-    fails = ctx.coq_eval("c36", imports, rlits + dlits, "(fun c => match c with inl b => chkR b | inr d => chkD d end)", pre=COQ_PRE, shard=120)
+    fails = ctx.coq_eval("c36", imports, rlits + dlits + jlits, "(fun c => match c with inl b => chkR b | inr (inl d) => chkD d | inr (inr j) => chkJ j end)", pre=COQ_PRE, shard=120)
     for i in fails[:4]:
         if i < len(rlits):
             ctx.violation("correspondence", {"case": rlits[i][:600]}, expected="model output (Model/Orient.v at binary64, tolerance 2^-30 scaled)", observed="see case", found_input=False,
                           theorem="correspondence c36 mjs_resolveOrientation", signature={"site": "mjs_resolveOrientation", "class": "model"})
-        else:
+        elif i < len(rlits) + len(dlits):
             ctx.violation("correspondence", {"case": dlits[i - len(rlits)][:600]}, expected="resolveElement (Model/Orient.v) = compiled joint attributes", observed="see case", found_input=False,
                           theorem="correspondence c36 default classes", signature={"site": "defaults", "class": "model"})
+        else:
+            ctx.violation("correspondence", {"case": jlits[i - len(rlits) - len(dlits)][:600]}, expected="jointRange / jointRef (Model/Orient.v) = compiled jnt_range, qpos0, qpos_spring", observed="see case",
+                          found_input=False, theorem="correspondence c36 joint angle attributes", signature={"site": "mjCJoint::Compile", "class": "model"})
     ctx.cov["evaluations"] = nres + mstat.get("compiles", 0)
     ctx.cov["distinct_nontrivial"] = nres + mstat.get("compiles", 0)
     ctx.cov["rule"] = ("mjs_resolveOrientation: random and special inputs of every spelling (all 216 Euler sequences in radians, a sample in degrees, invalid sequences, axis lengths around the mjEPS "
